@@ -33,7 +33,7 @@ sid = f"{prop}-{name.replace('extra_', 'x')}"
 d = f"/verif/seeded/{sid}"; os.makedirs(d, exist_ok=True)
 shutil.copy(diff, f"{d}/patch.diff"); shutil.copy(demo, f"{d}/demo.rs")
 notes = open(f"{out}/notes.md").read() if os.path.exists(f"{out}/notes.md") else ""
-meta = {"id": sid, "breaks_property": prop, "origin": "independent sub-agent given only the property text and a scratch worktree",
+meta = {"id": sid, "breaks_property": prop.rstrip("b"), "origin": "independent sub-agent given only the property text and a scratch worktree",
         "confirmed": {"suite_with_change": "all test binaries ok, 39/39 in tests/tests.rs", "demo_with_change": "fails", "demo_without_change": "passes",
                       "commands": ["git apply patch.diff", "cargo test --workspace --no-fail-fast --offline", "cargo test --offline --test demo_x (with and without the change)"]},
         "needs_to_manifest": "", "detected_by": {}}
